@@ -1,5 +1,6 @@
 import Driver.Util
 import Model.BTree
+import Model.BTreeCow
 /-!
 driver ops of C19 (prefix `c19.`).
 
@@ -184,6 +185,101 @@ def runHist (t : Nat) (io : Bool) (ca : Bool) (ops : List String) : String :=
     (s', acc.2.push r)) (s0, #[])
   " ".intercalate ("ok" :: out.toList)
 
+/-! ## mechanism-level model (`c19.cow`): heap of nodes with creator tokens
+
+Node identities are compared through serial numbers given in order of first appearance in the dumps (all trees in
+handle order, preorder, after every `I`/`D`/`X` op); a creator token is the index of the tree handle it belongs to. -/
+open Model.BTreeCow in
+def dumpN (H : Heap) : Nat → Nat → (Array Nat × Nat × Array String) → (Array Nat × Nat × Array String)
+  | fuel, a, (ser, nxt, out) =>
+    let c := rd H a
+    let (ser, nxt, sn) :=
+      match ser[a]? with
+      | some (n + 1) => (ser, nxt, n)
+      | _ => (ser.setIfInBounds a (nxt + 1), nxt + 1, nxt)
+    let head := (if c.leaf then "L" else "N") ++ toString sn ++ "@" ++ toString c.creator ++
+      (if c.leaf then "" else "/" ++ toString c.kids.length) ++ ":" ++ showElts c.elts
+    let st := (ser, nxt, out.push head)
+    if c.leaf then st
+    else match fuel with
+      | 0 => st
+      | f + 1 => c.kids.foldl (fun st k => dumpN H f k st) st
+
+open Model.BTreeCow in
+structure CowSt where
+  w : World
+  hs : Array Handle
+  ser : Array Nat
+  nxt : Nat
+
+open Model.BTreeCow in
+/-- dump every tree; returns the new serial state, the line of tree `h`, and the digests of all trees -/
+def CowSt.dumpAll (s : CowSt) (h : Nat) : CowSt × String × String :=
+  let H := s.w.heap
+  let ser0 := s.ser ++ Array.replicate (H.size - s.ser.size) 0
+  let (ser, nxt, mine, digs) := s.hs.foldl (fun (acc : Array Nat × Nat × String × Array Nat × Nat) hd =>
+      let (ser, nxt, mine, digs, idx) := acc
+      let (ser, nxt, out) := dumpN H (heightOf H hd.root + 1) hd.root (ser, nxt, #[])
+      let line := ";".intercalate out.toList
+      let full := line ++ "#" ++ toString hd.size ++ "#" ++ (if hd.immutable then "F" else "M")
+      (ser, nxt, if idx = h then line else mine, digs.push (polyHash full), idx + 1))
+    (ser0, s.nxt, "", #[], 0) |> fun (a, b, c, d, _) => (a, b, c, d)
+  ({ s with ser := ser, nxt := nxt }, mine, ",".intercalate (digs.toList.map toString))
+
+open Model.BTreeCow in
+def cowMut (s : CowSt) (h : Nat) (res : World × Handle × Outcome (Option Elt)) : CowSt × String :=
+  let (w, hd, r) := res
+  let s := { s with w := w, hs := s.hs.setIfInBounds h hd }
+  let (s, mine, digs) := s.dumpAll h
+  (s, outcomeStr r ++ "|" ++ toString hd.size ++ "|" ++ mine ++ "|" ++ digs)
+
+open Model.BTreeCow in
+def cowStep (s : CowSt) (tok : String) : CowSt × String :=
+  match tok.splitOn "," with
+  | op :: fs =>
+    match nats fs with
+    | none => (s, "!")
+    | some args =>
+      match op, args with
+      | "I", [h, k, v] =>
+        match s.hs[h]? with
+        | none => (s, "!")
+        | some hd => cowMut s h (hd.insert s.w (k, v))
+      | "D", [h, k] =>
+        match s.hs[h]? with
+        | none => (s, "!")
+        | some hd => cowMut s h (hd.delete s.w k none)
+      | "X", [h, k, v] =>
+        match s.hs[h]? with
+        | none => (s, "!")
+        | some hd => cowMut s h (hd.delete s.w k (some (k, v)))
+      | "G", [h, k] =>
+        match s.hs[h]? with
+        | none => (s, "!")
+        | some hd => (s, showOpt (hd.get s.w k))
+      | "C", [h, io] =>
+        match s.hs[h]? with
+        | none => (s, "!")
+        | some hd =>
+          match cloneTree s.w hd (io != 0) with
+          | none => (s, "VE")
+          | some (w, c) => ({ s with w := w, hs := s.hs.push c }, toString s.hs.size)
+      | "F", [h] =>
+        match s.hs[h]? with
+        | none => (s, "!")
+        | some hd => ({ s with hs := s.hs.setIfInBounds h { hd with immutable := true } }, "ok")
+      | _, _ => (s, "!")
+  | [] => (s, "!")
+
+open Model.BTreeCow in
+def runCow (t : Nat) (io ca : Bool) (ops : List String) : String :=
+  let (w, hd) := newTree { heap := #[], nextCreator := 0 } t io ca
+  let s0 : CowSt := { w := w, hs := #[hd], ser := #[], nxt := 0 }
+  let (_, out) := ops.foldl (fun (acc : CowSt × Array String) tok =>
+    let (s', r) := cowStep acc.1 tok
+    (s', acc.2.push r)) (s0, #[])
+  " ".intercalate ("ok" :: out.toList)
+
 end C19
 
 def handleC19 : List String → Option String
@@ -193,6 +289,12 @@ def handleC19 : List String → Option String
     let ca ← parseBool ca
     if t < 3 then some "err ValueError" else
     some (C19.runHist t io ca ops)
+  | "c19.cow" :: t :: io :: ca :: ops => do
+    let t ← t.toNat?
+    let io ← parseBool io
+    let ca ← parseBool ca
+    if t < 3 then some "err ValueError" else
+    some (C19.runCow t io ca ops)
   | ["c19.search", key, ks] => do
     -- search_in_node on a node whose element keys are `ks` (comma separated, `-` = empty)
     let key ← key.toNat?
